@@ -383,6 +383,7 @@ pub fn gen_c01(rng: &mut Rng, idx: u64) -> H1Scenario {
         grants: vec![],
         progs: vec![],
         start_ms: 0,
+        writes_blocked_after_grants: false,
     };
     let stream = conn.stream();
     let layout = conn.layout();
@@ -665,6 +666,7 @@ pub fn gen_pipeline(rng: &mut Rng, prop: &'static str) -> H1Scenario {
         grants,
         progs,
         start_ms: 0,
+        writes_blocked_after_grants: false,
     };
     let stream = conn.stream();
     let layout = conn.layout();
@@ -763,6 +765,7 @@ pub fn solo_scenario(sc: &H1Scenario, req_idx: usize, prog: &Prog) -> H1Scenario
             grants: vec![],
             progs: vec![p],
             start_ms: 0,
+            writes_blocked_after_grants: false,
         }],
         gates: vec![],
         signal_at_ms: None,
